@@ -1,10 +1,11 @@
 (* C20 (and the table layer of C13) — executable model of crem's CSV table loader.
 
-   Transcribed from /repo (as it is now, i.e. after the D15 fixes):
+   Transcribed from /repo (as it is now, i.e. after the D15 fixes and b0400cb "tables loaded from CSV remember each
+   cell's text"):
      internal/pkg/dataset/csv/CsvDataSet.go   ParseCsvTextIntoTable, deriveTableFromRecords,
                                               deriveContextFromRecords, assignTableHeaders, assignTableContent
      internal/pkg/dataset/tables/baseTable.go SetColumnAndRowSize, ColumnAndRowSize, Cell, CellFloat64, CellString
-     internal/pkg/dataset/tables/CsvTable.go  Header
+     internal/pkg/dataset/tables/CsvTable.go  Header, SetCellText, CellString (the remembered text, verbatim)
      pkg/strings/BaseCaster.go                Cast  (number first, then boolean, else the string itself)
 
    Trusted oracles (NOT modelled here): encoding/csv (text -> records; with FieldsPerRecord = 0 every
@@ -48,11 +49,13 @@ Definition to_base (cast : caster) (s : string) : cellv :=
   | TText => VStr s
   end.
 
-(* tables.CsvTableImpl: header + baseTable{colNum, cells [row][col]} *)
+(* tables.CsvTableImpl: header + baseTable{colNum, cells [row][col]} + text (map (col,row) -> the field the cell was
+   parsed from; modelled as a [row][col] list: SetCellText is only ever called next to SetCell) *)
 Record table := mkTable {
   t_header : list string;
   t_colnum : nat;
-  t_cells : list (list cellv) }.
+  t_cells : list (list cellv);
+  t_text : list (list string) }.
 
 (* assignTableContent, inner loop: for colIndex < colSize: records[rowIndex][colIndex] — index out of range
    (Panic) when the record is shorter than the header; extra fields are silently ignored. *)
@@ -81,7 +84,8 @@ Definition derive_table (cast : caster) (recs : list (list string)) : res table 
   | [] => Panic                                        (* inputRecords[0] *)
   | h :: rows =>
     do cs <- rows_cast cast (List.length h) rows;
-    Ok (mkTable h (List.length h) cs)
+    (* SetCellText(colIndex, rowIndex-1, records[rowIndex][colIndex]) for the same indices as SetCell *)
+    Ok (mkTable h (List.length h) cs (map (firstn (List.length h)) rows))
   end.
 
 (* What encoding/csv's ReadAll handed back. *)
@@ -128,13 +132,24 @@ Definition cell_float64 (t : table) (col row : nat) : res num :=
   do v <- cell t col row;
   match v with VNum x => Ok x | _ => Panic end.
 
-(* CellString: string -> itself; float64 -> Sprintf("%v"); anything else -> "" *)
-Definition cell_string (fmt : num -> string) (t : table) (col row : nat) : res string :=
+(* baseTable.CellString: string -> itself; float64 -> Sprintf("%v"); anything else -> "" *)
+Definition base_cell_string (fmt : num -> string) (t : table) (col row : nat) : res string :=
   do v <- cell t col row;
   match v with
   | VStr s => Ok s
   | VNum x => Ok (fmt x)
   | VBool _ => Ok EmptyString
+  end.
+
+(* CsvTableImpl.CellString: the remembered text of the cell if there is one, else baseTable.CellString *)
+Definition cell_string (fmt : num -> string) (t : table) (col row : nat) : res string :=
+  match nth_error (t_text t) row with
+  | Some r =>
+    match nth_error r col with
+    | Some s => Ok s
+    | None => base_cell_string fmt t col row
+    end
+  | None => base_cell_string fmt t col row
   end.
 
 (* ---- helpers for stating faithfulness ---- *)
